@@ -19,18 +19,21 @@ MANIFEST = dict(
         "shortcut and LinearKernel's override). Over the reals (Mathlib Matrix.PosSemidef): Gram matrices of linear, polynomial "
         "(offset>=0), monomial kernels are PSD, PSD-ness is closed under non-negative scaling, weighted sums, products (Schur), "
         "normalisation and sub-ranges, hence every kernel expression with admissible parameters is PSD and every assembled regularised "
-        "Gram matrix is PosSemidef, with PSD-ness of Gaussian/ARD leaves as an explicit hypothesis. Derivatives (HasDerivAt): the "
-        "model of weightedParameterDerivative / weightedInputDerivative of the Gaussian, polynomial and linear kernels is the true "
-        "derivative of the weighted sum of kernel values for all batches and coefficients. The model is tied to the real classes by an "
-        "exact (Rat) / bit-for-bit (Float) line-by-line correspondence of single, stateful-block, stateless-block evaluation, "
+        "Gram matrix is PosSemidef, with PSD-ness of Gaussian/ARD leaves as an explicit hypothesis; linear kernel also PSD as a quadratic form over "
+        "any ordered field. ModelKernel (affine model), SubrangeKernel and PointSetKernel are covered (symmetry, block=single, Gram assembly; "
+        "PSD for Model/Subrange). Derivatives (HasDerivAt): the model of weightedParameterDerivative / weightedInputDerivative of the Gaussian, "
+        "polynomial, linear and ARD (log-gamma) kernels, of ScaledKernel, and the log-weight derivative of WeightedSumKernel are the true "
+        "derivatives of the weighted sum of kernel values for all batches and coefficients. The model is tied to the real classes by an "
+"exact (Rat) / bit-for-bit (Float) line-by-line correspondence of single, stateful-block, stateless-block evaluation, "
         "featureDistanceSqr, Gram matrices over many batch partitions (thorough: all ordered partitions of up to 12 points) and the "
         "derivative calls, for dense and sparse inputs, under ASan/UBSan, plus an in-harness property oracle (symmetry, block=single, "
         "unit diagonal, smallest eigenvalue, finite-difference derivatives of every composed kernel)."),
   note=TRUST + "floating-point rounding is outside the theorems (exact-arithmetic statements; 'no negative eigenvalues beyond rounding' "
        "is checked numerically by the harness oracle only); Gaussian/ARD PSD-ness is a hypothesis, not proved; derivative theorems cover "
-       "Gaussian/polynomial/linear only - derivatives of ARD, normalised, scaled, weighted-sum, sub-range, monomial kernels are exercised by the "
-       "finite-difference oracle only (toleranced 2e-5), the Gaussian derivative correspondence is bit-exact on 1x1 blocks only; "
-       "ModelKernel/PointSetKernel/MultiTaskKernel and the unconstrained parameter encodings are not modelled; ARD, normalised and sub-range kernels "
+       "Gaussian/polynomial/linear/ARD/scaled and the weighted-sum log-weights - derivatives of normalised, sub-range, monomial, model, point-set kernels and the "
+       "weighted-sum input derivative are exercised by the finite-difference oracle only (toleranced 2e-5); the Gaussian derivative correspondence is "
+       "bit-exact on 1x1 blocks only (ARD: all blocks), PointSetKernel with inexact base values only on singleton sets (summation order not modelled); "
+       "PSD of PointSetKernel, MultiTaskKernel, MklKernel and the unconstrained parameter encodings of Gaussian/polynomial are not modelled; ARD, normalised and sub-range kernels "
        "cannot be instantiated for sparse inputs in Shark, so the sparse runs cover the other kernels. Four genuine defects found by this check "
        "(normalized-stateless-block, discrete-block-ignores-indices, monomial-degree1-input-derivative, product-uninitialised-parameter-count) "
        "are repaired in /repo by fix: commits ceaec0f1, f2e5cee8, e15da9fc, dba592e9; their inputs stay in corpus/C05 and the model is the repaired code.",
@@ -285,7 +288,16 @@ def gen_deriv_case(r, maxn):
     else:
         # ARD: plain scalar loops in the C++ -> bit mode on arbitrary blocks
         toks, exact = ["ard", str(dim)] + [dy(r.choice([Fraction(1, 4), Fraction(1, 2), Fraction(1), Fraction(2), Fraction(3, 8)])) for _ in range(dim)], False
-    if r.chance(1, 3):
+    wsum_case = False
+    if r.chance(1, 5):
+        # WeightedSumKernel over exact leaves, weights (1, w2, ..) with a power-of-two sum: derivative w.r.t. the log-weights
+        wsum_case = True
+        ws = r.choice([[1, 1], [1, 3], [1, 1, 2], [1, 2, 1], [1, 1, 1, 1], [1, Fraction(1, 2), Fraction(1, 2)]])
+        leaves = [r.choice([["lin"], ["poly", "2", "1"], ["poly", "3", "1:-1"], ["mono", "2"], ["poly", "1", "0"]]) for _ in ws]
+        toks = ["wsum", str(len(ws)), dy(sum(Fraction(w) for w in ws))]
+        for w, l in zip(ws, leaves): toks += [dy(Fraction(w))] + l
+        exact = True
+    elif r.chance(1, 3):
         toks = ["scaled", dy(r.choice([Fraction(1, 2), Fraction(2), Fraction(3), Fraction(1, 4)]))] + toks
     pts = gen_points(r, n, dim, False)
     ops = ["kern " + " ".join(toks), f"pts {n} {dim} " + " ".join(str(v) for p in pts for v in p)]
@@ -296,7 +308,8 @@ def gen_deriv_case(r, maxn):
             a = r.below(n); b = r.range(a + 1, n); c = r.below(n); d = r.range(c + 1, n)
         co = " ".join(dy(r.choice([Fraction(v) for v in (-3, -2, -1, 0, 1, 2, 3)] + [Fraction(1, 2), Fraction(-3, 4)])) for _ in range((b - a) * (d - c)))
         ops.append(f"pderiv {a} {b} {c} {d} {co}")
-        ops.append(f"ideriv {a} {b} {c} {d} {co}")
+        if not wsum_case:
+            ops.append(f"ideriv {a} {b} {c} {d} {co}")
     a = r.below(n); b = r.range(a + 1, n); c = r.below(n); d = r.range(c + 1, n)
     ops.append(f"dcheck {a} {b} {c} {d} " + " ".join(str(r.range(-2, 2)) for _ in range((b - a) * (d - c))))
     return ops, dict(exact=exact, exact_case=exact, kinds=set(kinds_of(ops)) | {"deriv"}, depth=0, n=n, dim=dim, parts=0, M=Fraction(1), f=0)
